@@ -362,9 +362,27 @@ def check_named(ctx, full):
 
 # ---- graph_diff over pairs --------------------------------------------------
 
+SAME_ID = URIRef("http://ex.org/same-name")
+
+
+def _renamed(g):
+    """A copy of g (own store) under an explicit identifier: two revisions of one named graph carry the same identifier and are still two graphs."""
+    c = Graph(identifier=SAME_ID, bind_namespaces="none")
+    for t in g:
+        c.add(t)
+    return c
+
+
 def diff_case(kind, n, m1, m2):
-    g1 = build(kind, n, m1)
-    g2 = build(kind, n, m2, naming=1)
+    v = _diff_case(build(kind, n, m1), build(kind, n, m2, naming=1))
+    if v is None and n <= 3:
+        v = _diff_case(_renamed(build(kind, n, m1)), _renamed(build(kind, n, m2, naming=1)))
+        if v is not None:
+            v = (v[0] + "|graphs-with-the-same-identifier", v[1])
+    return v
+
+
+def _diff_case(g1, g2):
     both, first, second = graph_diff(g1, g2)
     rb, rf, rs = rows(both), rows(first), rows(second)
     if not iso(rb | rf, rows(g1)):
